@@ -69,6 +69,25 @@ def gen_live(chk, n):
             # all variants in a row in each pre-authentication state
             for pos in range(len(base)):
                 out.append((server, 0, base[:pos] + ALL_VARIANTS + base[pos:] + ["cast R", "kspawn 55"], 0, trans))
+    # a frame with a valid length prefix whose payload does not decode (and an oversized one) at every position
+    # before authentication, followed by the rest of a correct handshake and payloads: closed, never authenticated
+    for server in (True, False):
+        base = honest(server, __import__("random").Random(11))
+        for pos in range(len(base)):
+            for j in (0, 3, 4, 1):
+                out.append((server, 0, base[:pos] + [f"malformed {j}"] + base[pos:] + ["cast R", "kspawn 55", "kenum 9 9"], 0, False))
+        out.append((server, 0, base + ["cast R", "malformed 3", "cast R", "kspawn 55"], 0, False))
+    # a half-open claimant (the session under test: it only claims the name of peer 1, never proves the cookie) is
+    # parked BEFORE the honest peer 1 completes its own handshake on another connection; claimant nonce 0 / 1 / max,
+    # claimant inbound and outbound, honest connection inbound (nonce 0 / 1 / 7777 / max) and outbound
+    big = 2**64 - 1
+    for hon in ["honest out 1"] + [f"honest in 1 {hn}" for hn in (0, 1, 7777, big)]:
+        for cn in (0, 1, big):
+            for extra in ([], ["kspawn 55", "cast R"]):
+                out.append((True, 0, [f"name 1 2 {cn}"] + extra + [hon, "cast R", "kenum 9 9", "kping 5"], 0, False))
+        for extra in ([], ["kspawn 55"]):
+            out.append((False, 0, ["sstatus 0", "schal 1 2 99"] + extra + [hon, "cast R", "kenum 9 9"], 0, False))
+            out.append((False, 0, ["sstatus 4", "schal 1 2 99"] + extra + [hon, "cast R"], 0, False))
     # every ServerStatus value a client-side session can be told, then the rest of an honest handshake
     for st in (0, 1, 2, 3, 4, 5, 2**32 - 1):
         out.append((False, 0, [f"sstatus {st}", "cast R", "schal 7 8 99", "sack k:0:I", "cast R", "kspawn 55"], 0, False))
@@ -132,7 +151,7 @@ def gen_live(chk, n):
             elif r < 0.95:
                 ops.append(rng.choice(AUTH_NOISE))
             else:
-                ops.append(f"malformed {rng.choice([0, 1])}")
+                ops.append(f"malformed {rng.choice([0, 1, 3, 4])}")
         ck = 0 if rng.random() < 0.7 else rng.choice(COOKIES)
         if ck:
             near = near_cookies(ck)
@@ -316,7 +335,7 @@ def run_gate(chk, build, factor):
             if head(m) == "LTerminate":
                 live = [x for x in live if x != m[1]]
             live_at.append(list(live))
-            if m == "Malformed":
+            if head(m) == "Malformed":
                 cut = True
             if cut:
                 continue
@@ -324,7 +343,7 @@ def run_gate(chk, build, factor):
                 msgs.append(f"ISpawn {m[1]} {m[2]}")
             elif head(m) == "LTerminate":
                 msgs.append(f"ITerminate {m[1]} {m[2]}")
-            elif m == "LNone":
+            elif m == "LNone" or head(m) == "LHonest":
                 msgs.append("ISpawn 0 false")
             else:
                 msgs.append(f"IPeer {show_term(m)} {infer_env(st[1:], rpid, live)}")
@@ -369,6 +388,7 @@ def run_gate(chk, build, factor):
         # peer presented the digest of the challenge the session issued, with the session's cookie
         issued, proved, why = None, False, ""
         ever_ok = False
+        garbage, honest = False, set()
         for s in steps:
             msg, flags, frames, listed, rnd = s[1], s[2], s[3], s[7], s[8]
             want = None if issued is None else 1 + issued + c[3] * K
@@ -385,6 +405,21 @@ def run_gate(chk, build, factor):
             announced = any(e in ("EvAuthenticated", "EvReady") for e in ev_self)
             if (flags[2] == "true" or listed_self or announced) and not proved:
                 why = "session authenticated / listed / announced to subscribers without the digest of its challenge"
+            if head(msg) == "Malformed" and not ever_ok:
+                # the clause is about the handshake: garbage on an already authenticated session is C19's subject
+                garbage = True
+            if garbage and (flags[1] == "true" or flags[2] == "true" or listed_self or announced):
+                why = why or ("the session is still alive / authenticated / listed after a frame that does not decode "
+                              "(malformed frames must close the session for good)")
+            if head(msg) == "LHonest":
+                honest.add(msg[1])
+                if not any(head(e) == "EvAuthenticated" and e[1] != "true" for e in s[9]):
+                    why = why or ("an honest peer completed the handshake while an unauthenticated connection claiming its "
+                                  "name was parked, but its session was not announced as authenticated")
+            if honest and not ever_ok and flags[2] != "true" and \
+                    not all(any(x[1] != "true" and x[2][1] == h for x in listed) for h in honest):
+                why = why or ("an unauthenticated connection (it only claimed a peer name) keeps / removes the authenticated "
+                              "session of the honest peer of that name out of GetSessions")
             if c[1] and not ever_ok and flags[2] != "true" and not any(x[1] != "true" for x in listed):
                 why = why or ("an unauthenticated connection evicted the authenticated session of another peer from "
                               "GetSessions")
